@@ -4,10 +4,10 @@ package harness
 
 import (
 	"context"
-	"time"
 	"fmt"
 	"net/http"
 	"os"
+	"time"
 
 	"github.com/pingcap/log"
 	"github.com/tikv/pd/server"
